@@ -103,7 +103,7 @@ modelled! {
             Ok(v) => { assert!(ok, "invalid digits accepted"); assert!(v == val, "number excerpt read to a different value"); }
             Err(()) => assert!(!ok, "valid number rejected"),
         }
-        kani::cover!(r == Ok(0xf), "hex digit");
+        kani::cover!(ss.n == 2 && c[0] == '0' && c[1] == 'x' && r == Ok(0), "bare 0x prefix");
         kani::cover!(r == Ok(19), "decimal 19");
         kani::cover!(r.is_err(), "invalid digits");
         std::mem::forget(report);
